@@ -24,7 +24,7 @@ CLAIM = dict(cat="proof", design="§3 C04, §8 D8/O1",
         "HydroDensitySubGrid::update_conserved_variables / Hydro::set_primitive_variables bit for bit on random cell pairs; (3) oracle on the real code: per-pair exact antisymmetry, "
         "and real subgrids with the real sweeps driven in phase order on 6 layouts x 4 initial states (smooth, discontinuous, near-vacuum, random) x anisotropic cells: totals drift, "
         "min mass/energy, finiteness, bit-identical repetition. Task-table tie (shared with C07, theorem C07_phases_ordered): on every run the REAL hydro task tables of several layouts are dumped and every pair of tasks in consecutive phases that touch a common subgrid must be connected by a dependency path; otherwise a legal order of the REAL task objects that starts the later task first is executed and reported as the failing history. Near-vacuum prediction pass: Hydro::predict_primitive_variables on cells with subnormal density and vanishing gradients must stay finite (1/rho overflows).",
-   note="Trusted: Coq kernel + standard real-number axioms (sig_forall_dec, sig_not_dec, functional_extensionality_dep, classic); Coq.Floats specification axioms for the binary64 clamp lemma; "
+   note="Step runs include two periodic groups with the velocity limiter on (Hydro:maximum velocity below the speeds of many cells). Trusted: Coq kernel + standard real-number axioms (sig_forall_dec, sig_not_dec, functional_extensionality_dep, classic); Coq.Floats specification axioms for the binary64 clamp lemma; "
         "extraction (ExtrOcamlBasic/ExtrOCamlFloats) + OCaml driver for the correspondences; glibc pow. C05 ties the HLLC model to the real solver. "
         "PARTIAL: (a) C04_nonnegative_after_update_binary64_partial: on binary64 what leaves the clamps is >= 0 unless it is NaN; finiteness for all float inputs is NOT claimed "
         "(overflow is possible by construction, std::max(NaN,0.) is NaN: C04_clamp_passes_nan) -- finiteness is evidence from the end-to-end runs only; "
